@@ -97,6 +97,8 @@ let run_enc (path : string) =
         else begin
           let v = c03_encode_verdict inputs ds in
           (match v with COk -> () | _ -> viol_line (verdict_name v));
+          (* ... and every sample, read back as a document, is its input without the non-metric leaves (C03_oracle_docs_sound) *)
+          if v = COk && not (c03_encode_docs_ok inputs ds) then viol_line "samples-as-documents-differ-from-the-inputs";
           (match x_spec_decode_stream ds with
            | Some tables ->
                nchunks := !nchunks + List.length tables;
